@@ -72,11 +72,37 @@ func init() {
 		"strings.HasPrefix": specBytesHasPrefix,
 		"errors.Join":       specErrorsJoin,
 		"io.ReadFull":       specIOReadFull,
+		"bytes.NewReader":            specBytesNewReader,
+		"(*bytes.Reader).Seek":       specBytesReaderSeek,
+		"encoding/binary.Read":       specBinaryRead,
+		"io.ReadAll":                 specIOReadAll,
+		"encoding/json.Unmarshal":    specJSONUnmarshal,
+		"strconv.Itoa": func(env *Env, recv *Val, args []Val, st *State, call *ast.CallExpr) Val {
+			env.c.strAxioms()
+			env.c.decls.declFun("strconv_itoa", []string{"Int"}, "Str")
+			env.c.decls.axiom("strconv_itoa/inj", "(forall ((a Int) (b Int)) (! (=> (= (strconv_itoa a) (strconv_itoa b)) (= a b)) :pattern ((strconv_itoa a) (strconv_itoa b))))")
+			env.c.trust("strconv.Itoa: a deterministic, injective function of the number")
+			return Val{T: app("strconv_itoa", args[0].T), Ty: tString}
+		},
+		"path/filepath.Join":         specPathJoin,
+		"path.Join":                  specPathJoin,
+		"path/filepath.Dir":          specPathFn("path_dir"),
+		"path.Dir":                   specPathFn("path_dir"),
+		"path/filepath.Base":         specPathFn("path_base"),
+		"path.Base":                  specPathFn("path_base"),
+		"path.Split":                 specPathSplit,
+		"path/filepath.Split":        specPathSplit,
+		"bytes.NewBuffer":            specBytesNewBuffer,
 		"slices.BinarySearchFunc": specBinarySearchFunc,
+		"slices.BinarySearch":     specBinarySearch,
 		"io.CopyN":          specIOCopyN,
 		"(io.Reader).Read":  specIORead,
 		"slices.SortFunc":   specSlicesSortFunc,
 		"slices.SortedFunc": specSlicesSortedFunc,
+		"slices.Sorted": func(env *Env, recv *Val, args []Val, st *State, call *ast.CallExpr) Val {
+			return specSlicesSortedFunc(env, recv, []Val{args[0], {T: "natural-order"}}, st, call)
+		},
+		"slices.ContainsFunc": specSlicesContainsFunc,
 		"slices.Backward":   specSlicesBackward,
 		"strings.Compare":   specBytesCompare,
 		"cmp.Compare":       specCmpCompare,
@@ -588,6 +614,18 @@ func specPut(n int, big bool) specFn {
 			arr = app("store", arr, fmt.Sprint(i), byteV)
 		}
 		nv := Val{T: app("mk_"+s, arr, app("len_"+s, b.T)), Ty: b.Ty}
+		// arithmetic fact (positional notation, proved as lemmas leRoundTrip32/64 in dkv/fields):
+		// the written bytes recompose to the value
+		var parts []string
+		for i := 0; i < n; i++ {
+			shift := i
+			if big {
+				shift = n - 1 - i
+			}
+			parts = append(parts, app("*", fmt.Sprintf("(mod (div %s %s) 256)", v.T, pow2(int64(8*shift)).String()), pow2(int64(8*shift)).String()))
+		}
+		st.assume(implies(app("<=", "0", v.T), eq(app("+", parts...), fmt.Sprintf("(mod %s %s)", v.T, pow2(int64(8*n)).String()))))
+		c.trust("binary.PutUintN: the n bytes written are the base-256 digits of the value, and the digits recompose to the value (positional notation)")
 		if len(call.Args) >= 1 && !env.contract {
 			c.assignSliceTarget(env, call.Args[0], nv, st)
 		}
@@ -722,10 +760,57 @@ func specSlicesSortFunc(env *Env, recv *Val, args []Val, st *State, call *ast.Ca
 
 func specCmpCompare(env *Env, recv *Val, args []Val, st *State, call *ast.CallExpr) Val {
 	a, b := args[0], args[1]
-	if env.sortOf(a.Ty) == "Str" {
+	s := env.sortOf(a.Ty)
+	if s == "Str" {
 		return specBytesCompare(env, recv, args, st, call)
 	}
+	if s != "Int" && s != "Real" {
+		// an ordered type parameter: a total order given by an injective embedding into the reals
+		oa, ob := ordOf(env, a), ordOf(env, b)
+		return intVal(ite(app("<", oa, ob), "(- 1)", ite(app(">", oa, ob), "1", "0")))
+	}
 	return intVal(ite(app("<", a.T, b.T), "(- 1)", ite(app(">", a.T, b.T), "1", "0")))
+}
+
+// ordOf: position of a value of an ordered (type parameter) sort in its total order.
+func ordOf(env *Env, v Val) string {
+	c := env.c
+	s := env.sortOf(v.Ty)
+	switch s {
+	case "Int", "Real":
+		return v.T
+	case "Str":
+		c.bytesAxioms(env.sortOf(types.NewSlice(tByte)))
+		return app("str_ord", v.T)
+	}
+	fn, inv := "ord_"+s, "ordinv_"+s
+	c.decls.declFun(fn, []string{s}, "Real")
+	c.decls.declFun(inv, []string{"Real"}, s)
+	c.decls.axiom(fn+"/inj", fmt.Sprintf("(forall ((a %s)) (! (= (%s (%s a)) a) :pattern ((%s a))))", s, inv, fn, fn))
+	c.trust("cmp.Compare on an ordered type parameter: a total order (injective embedding into the reals)")
+	return app(fn, v.T)
+}
+
+// slices.BinarySearch(s, target): a position in [0, len]; found only with s[pos] == target; on a
+// slice sorted by the natural order it finds every element that is present.
+func specBinarySearch(env *Env, recv *Val, args []Val, st *State, call *ast.CallExpr) Val {
+	c := env.c
+	sl, tg := args[0], args[1]
+	s := env.sortOf(sl.Ty)
+	env.rangeAssume(st, sl)
+	et := elemOf(sl.Ty)
+	tg = env.coerce(tg, et, st)
+	ln := app("len_"+s, sl.T)
+	idx := env.havoc(st, "bsearch_idx", tInt)
+	found := c.fresh("bsearch_found", "Bool")
+	at := func(i string) Val { return Val{T: app("select", app("arr_"+s, sl.T), i), Ty: et} }
+	st.assume(and(app("<=", "0", idx.T), app("<=", idx.T, ln), implies(found, and(app("<", idx.T, ln), eq(at(idx.T).T, tg.T)))))
+	i, j := c.freshBound("i"), c.freshBound("j")
+	sorted := fmt.Sprintf("(forall ((%s Int) (%s Int)) (=> (and (<= 0 %s) (< %s %s) (< %s %s)) (<= %s %s)))", i, j, i, i, j, j, ln, ordOf(env, at(i)), ordOf(env, at(j)))
+	present := fmt.Sprintf("(exists ((%s Int)) (and (<= 0 %s) (< %s %s) (= %s %s)))", i, i, i, ln, at(i).T, tg.T)
+	st.assume(implies(and(sorted, present), found))
+	c.trust("slices.BinarySearch: returns a position in [0, len], found only at an equal element, and finds every present element of a sorted slice")
+	return Val{Tuple: []Val{idx, boolVal(found)}}
 }
 
 // ---- io model. A reader is a byte string `data` and a position `pos` (ghost fields of the
@@ -877,7 +962,12 @@ func specSlicesSortedFunc(env *Env, recv *Val, args []Val, st *State, call *ast.
 	sub.qnames = append(append([]string(nil), env.qnames...), i, j)
 	scratch := st.clone()
 	arr := app("arr_"+rs, r.T)
-	cv := sub.applyFuncValue(cmpf, []Val{{T: app("select", arr, i), Ty: et}, {T: app("select", arr, j), Ty: et}}, scratch, call)
+	var cv Val
+	if cmpf.T == "natural-order" {
+		cv = specCmpCompare(&sub, nil, []Val{{T: app("select", arr, i), Ty: et}, {T: app("select", arr, j), Ty: et}}, scratch, call)
+	} else {
+		cv = sub.applyFuncValue(cmpf, []Val{{T: app("select", arr, i), Ty: et}, {T: app("select", arr, j), Ty: et}}, scratch, call)
+	}
 	for _, ex := range scratch.pc[len(st.pc):] {
 		if strings.Contains(ex, i) || strings.Contains(ex, j) {
 			if strings.HasPrefix(ex, "(! ") {
@@ -924,4 +1014,325 @@ func specSlicesBackward(env *Env, recv *Val, args []Val, st *State, call *ast.Ca
 	st.assume(fmt.Sprintf("(forall ((%s Int)) (! (and (= (%s %s %s) (- (- %s 1) %s)) (= (%s %s %s) (select (arr_%s %s) (- (- %s 1) %s)))) :pattern ((%s %s %s)) :pattern ((%s %s %s))))",
 		i, at0, sv, i, ln, i, at1, sv, i, s, sl.T, ln, i, at0, sv, i, at1, sv, i))
 	return Val{T: sv, Ty: seqT}
+}
+
+
+// ---- bytes.Reader model: a *bytes.Reader is a byte string (ghost data) and a position
+// (ghost pos, never negative, possibly beyond the end after a Seek).
+func bytesReaderState(env *Env, st *State, r Val) (posKey, data, pos, bs string) {
+	bs = env.sortOf(types.NewSlice(tByte))
+	dataKey := "Ext_bytes_Reader.$data"
+	posKey = "Ext_bytes_Reader.$pos"
+	hd := env.heapTerm(st, dataKey, bs)
+	hp := env.heapTerm(st, posKey, "Int")
+	data, pos = app("select", hd, r.T), app("select", hp, r.T)
+	env.c.trust("bytes.Reader model: a byte string and a position; binary.Read consumes exactly the value's size or fails without a value, Seek moves the position, io.ReadAll returns the rest")
+	return
+}
+
+func isBytesReader(env *Env, t types.Type) bool {
+	p, ok := types.Unalias(env.subst(t)).(*types.Pointer)
+	if !ok {
+		return false
+	}
+	n, ok := types.Unalias(p.Elem()).(*types.Named)
+	return ok && n.Obj().Pkg() != nil && n.Obj().Pkg().Path() == "bytes" && n.Obj().Name() == "Reader"
+}
+
+func specBytesNewReader(env *Env, recv *Val, args []Val, st *State, call *ast.CallExpr) Val {
+	sig := env.pkg.info.TypeOf(call)
+	ref := env.allocRef(st, sig)
+	r := Val{T: ref, Ty: sig}
+	posKey, _, _, bs := bytesReaderState(env, st, r)
+	env.rangeAssume(st, args[0])
+	st.heap["Ext_bytes_Reader.$data"] = app("store", st.heap["Ext_bytes_Reader.$data"], ref, args[0].T)
+	st.heap[posKey] = app("store", st.heap[posKey], ref, "0")
+	_ = bs
+	return r
+}
+
+func specBytesReaderSeek(env *Env, recv *Val, args []Val, st *State, call *ast.CallExpr) Val {
+	c := env.c
+	posKey, data, pos, bs := bytesReaderState(env, st, *recv)
+	off, wh := args[0].T, args[1].T
+	base := ite(eq(wh, "0"), "0", ite(eq(wh, "1"), pos, app("len_"+bs, data)))
+	np := app("+", base, off)
+	ok := and(app(">=", np, "0"), app("<=", "0", wh), app("<=", wh, "2"))
+	errv := c.fresh("seekerr", "Int")
+	st.assume(ite(ok, eq(errv, "0"), app(">", errv, "0")))
+	st.heap[posKey] = app("store", st.heap[posKey], recv.T, ite(ok, np, pos))
+	return Val{Tuple: []Val{{T: ite(ok, np, "0"), Ty: types.Typ[types.Int64]}, {T: errv, Ty: types.Universe.Lookup("error").Type()}}}
+}
+
+// binary.Read(r, order, &v) for r a *bytes.Reader and v an unsigned integer or a byte slice.
+func specBinaryRead(env *Env, recv *Val, args []Val, st *State, call *ast.CallExpr) Val {
+	c := env.c
+	errT := types.Universe.Lookup("error").Type()
+	if len(call.Args) != 3 || !isBytesReader(env, env.pkg.info.TypeOf(call.Args[0])) {
+		c.trust("unspecified callee encoding/binary.Read (source is not a *bytes.Reader): error and value read are arbitrary")
+		if len(call.Args) == 3 {
+			if ue, ok := unparen(call.Args[2]).(*ast.UnaryExpr); ok && ue.Op == token.AND {
+				if t := env.pkg.info.TypeOf(ue.X); t != nil {
+					c.assign(env, ue.X, env.havoc(st, "binread", t), st)
+				}
+			}
+		}
+		return env.havoc(st, "readerr", errT)
+	}
+	ue, ok := unparen(call.Args[2]).(*ast.UnaryExpr)
+	if !ok || ue.Op != token.AND {
+		c.unsupported("binary.Read: target must be &variable")
+		return env.havoc(st, "readerr", errT)
+	}
+	big := true
+	if sel, ok := unparen(call.Args[1]).(*ast.SelectorExpr); ok && sel.Sel.Name == "LittleEndian" {
+		big = false
+	}
+	r := env.eval(call.Args[0], st)
+	posKey, data, pos, bs := bytesReaderState(env, st, r)
+	tt := types.Unalias(env.subst(env.pkg.info.TypeOf(ue.X)))
+	cur := env.eval(ue.X, st)
+	ln := app("len_"+bs, data)
+	avail := ite(app(">", ln, pos), app("-", ln, pos), "0")
+	var n string
+	var val Val
+	byteAt := func(k string) string { return app("select", app("arr_"+bs, data), app("+", pos, k)) }
+	switch u := tt.Underlying().(type) {
+	case *types.Basic:
+		if u.Info()&types.IsInteger == 0 {
+			c.unsupported("binary.Read into %v", tt)
+			return env.havoc(st, "readerr", errT)
+		}
+		sz := int(intBits(tt) / 8)
+		n = fmt.Sprint(sz)
+		var parts []string
+		for i := 0; i < sz; i++ {
+			shift := i
+			if big {
+				shift = sz - 1 - i
+			}
+			b := byteAt(fmt.Sprint(i))
+			st.assume(and(app("<=", "0", b), app("<=", b, "255")))
+			parts = append(parts, app("*", b, pow2(int64(8*shift)).String()))
+		}
+		if isUnsigned(tt) {
+			val = Val{T: app("+", parts...), Ty: tt}
+		} else {
+			m, half := pow2(intBits(tt)).String(), pow2(intBits(tt)-1).String()
+			val = Val{T: fmt.Sprintf("(- (mod (+ %s %s) %s) %s)", app("+", parts...), half, m, half), Ty: tt}
+		}
+	case *types.Slice:
+		if env.sortOf(tt) != bs {
+			c.unsupported("binary.Read into %v", tt)
+			return env.havoc(st, "readerr", errT)
+		}
+		n = app("len_"+bs, cur.T)
+		arr := c.fresh("readbuf", "(Array Int Int)")
+		j := c.freshBound("j")
+		st.assume(fmt.Sprintf("(forall ((%s Int)) (! (=> (and (<= 0 %s) (< %s %s)) (= (select %s %s) (select (arr_%s %s) (+ %s %s)))) :pattern ((select %s %s))))",
+			j, j, j, n, arr, j, bs, data, pos, j, arr, j))
+		st.assume(fmt.Sprintf("(forall ((%s Int)) (! (and (<= 0 (select %s %s)) (<= (select %s %s) 255)) :pattern ((select %s %s))))", j, arr, j, arr, j, arr, j))
+		val = Val{T: app("mk_"+bs, arr, n), Ty: tt}
+	default:
+		c.unsupported("binary.Read into %v", tt)
+		return env.havoc(st, "readerr", errT)
+	}
+	enough := app(">=", avail, n)
+	errv := c.fresh("readerr", "Int")
+	eof, ueof := ioErr(c, "EOF"), ioErr(c, "ErrUnexpectedEOF")
+	st.assume(ite(enough, eq(errv, "0"), ite(eq(avail, "0"), eq(errv, eof), eq(errv, ueof))))
+	// on failure the target is unspecified (partially filled)
+	fail := env.havoc(st, "partial", tt)
+	if sl, isSl := tt.Underlying().(*types.Slice); isSl {
+		_ = sl
+		st.assume(eq(app("len_"+bs, fail.T), n))
+	}
+	c.assign(env, ue.X, Val{T: ite(enough, val.T, fail.T), Ty: tt}, st)
+	st.heap[posKey] = app("store", st.heap[posKey], r.T, app("+", pos, ite(enough, n, avail)))
+	return Val{T: errv, Ty: errT}
+}
+
+func specIOReadAll(env *Env, recv *Val, args []Val, st *State, call *ast.CallExpr) Val {
+	c := env.c
+	errT := types.Universe.Lookup("error").Type()
+	bt := types.NewSlice(tByte)
+	if len(call.Args) == 1 && !isBytesReader(env, env.pkg.info.TypeOf(call.Args[0])) && strings.HasPrefix(env.sortOf(args[0].Ty), "If_") {
+		// an io.Reader value of the io model (ghost data, pos): everything from pos on
+		r := args[0]
+		if ts := c.e.typeSpecForSort(env.sortOf(r.Ty)); ts != nil && ts.GhostFields["data"] != "" {
+			_, posKey, data, pos, bs := readerState(env, st, r)
+			rest := ioRest(env, st, data, pos)
+			st.heap[posKey] = app("store", st.heap[posKey], r.T, app("len_"+bs, data))
+			errv := c.fresh("readerr", "Int")
+			st.assume(app(">=", errv, "0"))
+			return Val{Tuple: []Val{rest, {T: errv, Ty: errT}}}
+		}
+	}
+	if len(call.Args) != 1 || !isBytesReader(env, env.pkg.info.TypeOf(call.Args[0])) {
+		c.trust("unspecified callee io.ReadAll (source is not a *bytes.Reader): results arbitrary")
+		return Val{Tuple: []Val{env.havoc(st, "readall", bt), env.havoc(st, "readerr", errT)}}
+	}
+	r := env.eval(call.Args[0], st)
+	posKey, data, pos, bs := bytesReaderState(env, st, r)
+	ln := app("len_"+bs, data)
+	avail := ite(app(">", ln, pos), app("-", ln, pos), "0")
+	arr := c.fresh("rest", "(Array Int Int)")
+	j := c.freshBound("j")
+	st.assume(fmt.Sprintf("(forall ((%s Int)) (! (=> (and (<= 0 %s) (< %s %s)) (= (select %s %s) (select (arr_%s %s) (+ %s %s)))) :pattern ((select %s %s))))",
+		j, j, j, avail, arr, j, bs, data, pos, j, arr, j))
+	st.assume(fmt.Sprintf("(forall ((%s Int)) (! (and (<= 0 (select %s %s)) (<= (select %s %s) 255)) :pattern ((select %s %s))))", j, arr, j, arr, j, arr, j))
+	st.heap[posKey] = app("store", st.heap[posKey], r.T, ite(app(">", ln, pos), ln, pos))
+	return Val{Tuple: []Val{{T: app("mk_"+bs, arr, avail), Ty: bt}, {T: "0", Ty: errT}}}
+}
+
+
+// ioRest(data, pos): the bytes of data from pos on, as a function of (data, pos).
+func ioRest(env *Env, st *State, data, pos string) Val {
+	c := env.c
+	bt := types.NewSlice(tByte)
+	bs := env.sortOf(bt)
+	fn := "io_rest"
+	c.decls.declFun(fn, []string{bs, "Int"}, bs)
+	c.decls.axiom(fn, fmt.Sprintf("(forall ((d %s) (p Int)) (! (=> (and (<= 0 p) (<= p (len_%s d))) (= (len_%s (%s d p)) (- (len_%s d) p))) :pattern ((%s d p))))", bs, bs, bs, fn, bs, fn))
+	c.decls.axiom(fn+"/at", fmt.Sprintf("(forall ((d %s) (p Int) (j Int)) (! (=> (and (<= 0 p) (<= 0 j) (< (+ p j) (len_%s d))) (= (select (arr_%s (%s d p)) j) (select (arr_%s d) (+ p j)))) :pattern ((select (arr_%s (%s d p)) j))))", bs, bs, bs, fn, bs, bs, fn))
+	return Val{T: app(fn, data, pos), Ty: bt}
+}
+
+// jsonDecoded: the value encoding/json stores for the given bytes into a variable of
+// type t - an uninterpreted function of (bytes, type): decoding is deterministic.
+func jsonDecoded(env *Env, data Val, t types.Type) Val {
+	c := env.c
+	s := env.sortOf(t)
+	fn := "json_" + mangle(s)
+	c.decls.declFun(fn, []string{env.sortOf(data.Ty)}, s)
+	c.trust("encoding/json.Unmarshal: the decoded value is a function of the input bytes and the target type; nothing else is assumed about it")
+	return Val{T: app(fn, data.T), Ty: t}
+}
+
+func specJSONUnmarshal(env *Env, recv *Val, args []Val, st *State, call *ast.CallExpr) Val {
+	c := env.c
+	errT := types.Universe.Lookup("error").Type()
+	errv := env.havoc(st, "jsonerr", errT)
+	st.assume(app(">=", errv.T, "0"))
+	if len(call.Args) == 2 {
+		if ue, ok := unparen(call.Args[1]).(*ast.UnaryExpr); ok && ue.Op == token.AND {
+			if t := env.pkg.info.TypeOf(ue.X); t != nil {
+				dec := jsonDecoded(env, args[0], t)
+				env.rangeAssume(st, dec)
+				fail := env.havoc(st, "jsonpartial", t)
+				c.assign(env, ue.X, Val{T: ite(eq(errv.T, "0"), dec.T, fail.T), Ty: t}, st)
+				return errv
+			}
+		}
+	}
+	c.trust("unspecified callee encoding/json.Unmarshal (target is not &variable): decoded value not modelled")
+	return errv
+}
+
+// bytes.NewBuffer(b) used as an io.Reader: the reader's ghost data is b, position 0.
+func specBytesNewBuffer(env *Env, recv *Val, args []Val, st *State, call *ast.CallExpr) Val {
+	c := env.c
+	rt := env.pkg.info.TypeOf(call)
+	ref := env.allocRef(st, rt)
+	r := Val{T: ref, Ty: rt}
+	// the io.Reader view of the buffer
+	var rdT types.Type
+	for _, p := range c.e.pkgs {
+		for _, ip := range p.Types.Imports() {
+			if ip.Path() == "io" {
+				if tn, ok := ip.Scope().Lookup("Reader").(*types.TypeName); ok {
+					rdT = tn.Type()
+				}
+			}
+		}
+		if rdT != nil {
+			break
+		}
+	}
+	if rdT != nil {
+		iv := env.coerce(r, rdT, st)
+		dataKey, posKey, _, _, _ := readerState(env, st, iv)
+		env.rangeAssume(st, args[0])
+		st.heap[dataKey] = app("store", st.heap[dataKey], iv.T, args[0].T)
+		st.heap[posKey] = app("store", st.heap[posKey], iv.T, "0")
+		// the reader view of an object allocated here is outside the caller's frame
+		c.frameRefs[dataKey] = append(c.frameRefs[dataKey], iv.T)
+		c.frameRefs[posKey] = append(c.frameRefs[posKey], iv.T)
+	}
+	return r
+}
+
+
+// ---- path functions: uninterpreted, deterministic. Join of several elements is the left
+// fold of a binary join, so Join(Join(a, b), c) and Join(a, b, c) are the same term (the real
+// function cleans its result and Clean is idempotent and compositional).
+func specPathJoin(env *Env, recv *Val, args []Val, st *State, call *ast.CallExpr) Val {
+	c := env.c
+	c.strAxioms()
+	c.decls.declFun("path_join2", []string{"Str", "Str"}, "Str")
+	c.trust("path/filepath functions are deterministic uninterpreted functions; Join(a, b, c) = Join(Join(a, b), c)")
+	if len(args) == 0 {
+		return Val{T: "str_empty", Ty: tString}
+	}
+	if call.Ellipsis.IsValid() {
+		return env.havoc(st, "joined", tString)
+	}
+	acc := args[0].T
+	for _, a := range args[1:] {
+		acc = app("path_join2", acc, a.T)
+	}
+	return Val{T: acc, Ty: tString}
+}
+
+func specPathFn(fn string) specFn {
+	return func(env *Env, recv *Val, args []Val, st *State, call *ast.CallExpr) Val {
+		c := env.c
+		c.strAxioms()
+		c.decls.declFun(fn, []string{"Str"}, "Str")
+		c.trust("path/filepath functions are deterministic uninterpreted functions; Join(a, b, c) = Join(Join(a, b), c)")
+		return Val{T: app(fn, args[0].T), Ty: tString}
+	}
+}
+
+func specPathSplit(env *Env, recv *Val, args []Val, st *State, call *ast.CallExpr) Val {
+	c := env.c
+	c.strAxioms()
+	c.decls.declFun("path_splitdir", []string{"Str"}, "Str")
+	c.decls.declFun("path_splitbase", []string{"Str"}, "Str")
+	c.trust("path/filepath functions are deterministic uninterpreted functions; Join(a, b, c) = Join(Join(a, b), c)")
+	return Val{Tuple: []Val{{T: app("path_splitdir", args[0].T), Ty: tString}, {T: app("path_splitbase", args[0].T), Ty: tString}}}
+}
+
+
+// slices.ContainsFunc(s, f): some element satisfies f. A function literal is evaluated on a
+// symbolic element (it must be free of side effects); other function values are applied as
+// pure functions.
+func specSlicesContainsFunc(env *Env, recv *Val, args []Val, st *State, call *ast.CallExpr) Val {
+	c := env.c
+	sl, f := args[0], args[1]
+	s := env.sortOf(sl.Ty)
+	env.rangeAssume(st, sl)
+	et := elemOf(sl.Ty)
+	i := c.freshBound("i")
+	sub := *env
+	sub.noSafety = true
+	sub.qvars = append(append([]string(nil), env.qvars...), fmt.Sprintf("(%s Int)", i))
+	sub.qnames = append(append([]string(nil), env.qnames...), i)
+	scratch := st.clone()
+	n := len(scratch.pc)
+	r := sub.applyFuncValue(f, []Val{{T: app("select", app("arr_"+s, sl.T), i), Ty: et}}, scratch, call)
+	for _, ex := range untag(scratch.pc[n:]) {
+		if strings.Contains(ex, i) {
+			st.assumeOnce(fmt.Sprintf("(forall ((%s Int)) %s)", i, ex))
+		} else {
+			st.assumeOnce(ex)
+		}
+	}
+	for k, v := range scratch.heap {
+		if _, ok := st.heap[k]; !ok {
+			st.heap[k] = v
+		}
+	}
+	c.trust("slices.ContainsFunc: true iff the predicate holds for some element (the predicate is side-effect free)")
+	return boolVal(fmt.Sprintf("(exists ((%s Int)) (and (<= 0 %s) (< %s %s) %s))", i, i, i, app("len_"+s, sl.T), r.T))
 }
